@@ -103,7 +103,7 @@ Section SinkFlow.
       destruct Sp as (B & _ & [[H1 H2]|[H1 H2]]); subst r; rewrite B.
       - cbn [andb]. rewrite orb_false_r. split; [exact I1|]. rewrite H2. exact I2.
       - unfold e. cbn [andb]. rewrite N.eqb_refl, orb_true_r. split; auto. }
-    destruct op as [n| | |n| | |n|n]; cbn [step is_raw andb];
+    destruct op as [n| | |n| | |n|n|]; cbn [step is_raw andb];
       try exact (FLUSH _ _ (surjective_pairing (bufio_flush (Some f) s)));
       try (match goal with |- context [sink_call (Some f) ?c s] =>
              exact (RAW c _ _ (surjective_pairing (sink_call (Some f) c s))) end).
@@ -150,6 +150,104 @@ Section SinkFlow.
     - destruct Sp as [-> _]. destruct I1 as [H|H]; [discriminate|]. right. exact H.
     - destruct Sp as [(_ & _ & H3)|(H1 & _)]; [|right; exact H1].
       rewrite H3 in Hf. destruct (I2 Hf) as [H|H]; [left; exact H|discriminate].
+  Qed.
+  (* ---- Writer.Close ---------------------------------------------------- *)
+
+  Lemma step_err_id op s rep x :
+    inv s rep -> fst (step (Some f) op s) = Some x -> x = e.
+  Proof.
+    intros [I1 _] H.
+    assert (FLUSH : fst (bufio_flush (Some f) s) = Some x -> x = e).
+    { pose proof (bufio_flush_spec s) as Sp. unfold buf_spec in Sp.
+      destruct (bufio_flush (Some f) s) as [r s']; cbn [fst snd] in *. intro; subst r.
+      destruct (berr s) as [y|] eqn:Hb.
+      - destruct Sp as [Hy _]. destruct I1 as [I|I]; congruence.
+      - destruct Sp as [(Hn & _)|(Hs & _)]; congruence. }
+    assert (RAW : forall c, fst (sink_call (Some f) c s) = Some x -> x = e).
+    { intro c. pose proof (sink_call_spec c s) as Sp. unfold raw_spec in Sp.
+      destruct (sink_call (Some f) c s) as [r s']; cbn [fst snd] in *. intro; subst r.
+      destruct Sp as (_ & _ & [[Hn _]|[Hs _]]); congruence. }
+    destruct op as [n| | |n| | |n|n|]; cbn [step] in H;
+      try (apply FLUSH; exact H); try (eapply RAW; exact H); try (unfold sink_read in H; cbn in H; discriminate).
+    pose proof (bufio_write_spec n s) as Sp. unfold buf_spec in Sp.
+    destruct (bufio_write (Some f) n s) as [r s']; cbn [fst snd] in *. subst r.
+    destruct (berr s) as [y|] eqn:Hb.
+    - destruct Sp as [Hy _]. destruct I1 as [I|I]; congruence.
+    - destruct Sp as [(Hn & _)|(Hs & _)]; congruence.
+  Qed.
+
+  Lemma run_close_inv : forall cl s rep,
+      inv s rep ->
+      fst (run_close (Some f) cl s) = Some e \/
+      (fst (run_close (Some f) cl s) = None /\ inv (snd (run_close (Some f) cl s)) rep).
+  Proof.
+    induction cl as [|op cl IH]; intros s rep I; cbn [run_close].
+    - right. split; [reflexivity|exact I].
+    - pose proof (step_inv op s rep I) as I1.
+      pose proof (step_err_id op s rep) as Eid.
+      destruct (step (Some f) op s) as [r s1]. cbn [fst snd] in *.
+      unfold rep_of in I1.
+      destruct (reports op) eqn:Rp.
+      + destruct r as [x|].
+        * left. cbn. rewrite (Eid x I eq_refl). reflexivity.
+        * rewrite andb_false_r, orb_false_r in I1. apply IH. exact I1.
+      + assert (Hr : is_raw op = false) by (destruct op; try discriminate; reflexivity).
+        rewrite Hr in I1. cbn [andb] in I1. rewrite orb_false_r in I1. apply IH. exact I1.
+  Qed.
+
+  (* the Flush of Close, when it succeeds, leaves no sticky error behind *)
+  Lemma close_tail_inv (owns : bool) s rep :
+    inv s rep ->
+    fst (run_close (Some f) (FinalFlush :: (if owns then [SinkClose] else [])) s) = Some e \/
+    (sfired (snd (run_close (Some f) (FinalFlush :: (if owns then [SinkClose] else [])) s)) = true -> rep = true).
+  Proof.
+    intros [I1 I2]. cbn [run_close step reports].
+    pose proof (bufio_flush_spec s) as Sp. unfold buf_spec in Sp.
+    destruct (bufio_flush (Some f) s) as [r s1]; cbn [fst snd] in *.
+    destruct (berr s) as [y|] eqn:Hb.
+    - destruct Sp as [-> _]. left. cbn. destruct I1 as [I|I]; congruence.
+    - destruct Sp as [(-> & Hb1 & Hf1)|(-> & _)]; [|left; reflexivity].
+      assert (K : sfired s1 = true -> rep = true).
+      { rewrite Hf1. intro H. destruct (I2 H) as [H1|H1]; [exact H1|discriminate]. }
+      destruct owns; cbn [run_close step reports].
+      + pose proof (sink_call_spec CClose s1) as Sp2. unfold raw_spec in Sp2.
+        destruct (sink_call (Some f) CClose s1) as [r2 s2]; cbn [fst snd] in *.
+        destruct Sp2 as (_ & _ & [[-> Hf2]|[-> _]]); [|left; reflexivity].
+        right. cbn. rewrite Hf2. exact K.
+      + right. exact K.
+  Qed.
+
+  Lemma run_close_app : forall a b s,
+      run_close (Some f) (a ++ b) s =
+      match fst (run_close (Some f) a s) with
+      | Some x => run_close (Some f) a s
+      | None => run_close (Some f) b (snd (run_close (Some f) a s))
+      end.
+  Proof.
+    induction a as [|op a IH]; intros b s; cbn [run_close app].
+    - reflexivity.
+    - destruct (step (Some f) op s) as [r s1].
+      destruct (reports op); [destruct r as [x|]|]; try apply IH. reflexivity.
+  Qed.
+
+  (* if the sink fails at any call - before Close or during it - and no raw call
+     of a Placeholder.Set / read-back has returned that error before Close, then
+     Close itself returns it *)
+  Lemma close_reports_lemma : forall before body owns,
+      let s := snd (run_ops (Some f) before w0) in
+      let rs := fst (run_ops (Some f) before w0) in
+      sfired (snd (run_close (Some f) (close_ops body owns) s)) = true ->
+      raw_reported (fid f) before rs = true \/
+      fst (run_close (Some f) (close_ops body owns) s) = Some (fid f).
+  Proof.
+    intros before body owns s rs.
+    pose proof (run_inv before w0 false inv_w0) as I. cbn [orb] in I. fold s rs in I.
+    unfold close_ops. rewrite run_close_app.
+    destruct (run_close_inv body s _ I) as [H|[H I2]].
+    - rewrite H. intros _. right. exact H.
+    - rewrite H. destruct (close_tail_inv owns _ _ I2) as [H2|H2].
+      + intros _. right. exact H2.
+      + intro Hf. left. apply H2. exact Hf.
   Qed.
 End SinkFlow.
 
@@ -201,7 +299,7 @@ Proof.
     pose proof (bsw_nofire f (buffered s) s) as H.
     destruct (bufio_sink_write (Some f) (buffered s) s) as [[x|] s'] eqn:E; cbn [snd] in *; intro Hf;
       destruct (H Hf) as [H1 H2]; rewrite <- H1; auto. }
-  destruct op as [n| | |n| | |n|n]; cbn [step]; try exact FL; try apply sink_call_nofire;
+  destruct op as [n| | |n| | |n|n|]; cbn [step]; try exact FL; try apply sink_call_nofire;
     try (unfold sink_read; cbn; auto).
   unfold bufio_write. destruct (berr s); [auto|].
   destruct (n <=? bufio_size - buffered s)%N; [auto|].
@@ -228,7 +326,7 @@ Proof.
   { unfold bufio_flush. destruct (berr s); [exact H|]. destruct (buffered s =? 0)%N; [exact H|].
     pose proof (bsw_fired_mono f (buffered s) s H) as M.
     destruct (bufio_sink_write f (buffered s) s) as [[x|] s']; exact M. }
-  destruct op as [n| | |n| | |n|n]; cbn [step]; try exact FL; try (apply sink_call_fired_mono; exact H);
+  destruct op as [n| | |n| | |n|n|]; cbn [step]; try exact FL; try (apply sink_call_fired_mono; exact H);
     try exact H.
   unfold bufio_write. destruct (berr s); [exact H|].
   destruct (n <=? bufio_size - buffered s)%N; [exact H|].
@@ -265,6 +363,38 @@ Proof.
   rewrite <- St1, <- IH1. split; [reflexivity|]. intro Hk. apply IH2, St2, Hk.
 Qed.
 
+(* a raw call that returned the error means the sink has failed *)
+Lemma raw_reported_fired f : forall ops s,
+    raw_reported (fid f) ops (fst (run_ops (Some f) ops s)) = true ->
+    sfired (snd (run_ops (Some f) ops s)) = true.
+Proof.
+  induction ops as [|op ops IH]; intros s; cbn [run_ops]; [cbn; discriminate|].
+  pose proof (run_fired_mono (Some f) ops) as M.
+  destruct (step (Some f) op s) as [r s1] eqn:Es.
+  specialize (IH s1). specialize (M s1).
+  destruct (run_ops (Some f) ops s1) as [rs s2]. cbn [fst snd raw_reported] in *.
+  intro H. apply orb_true_iff in H. destruct H as [H|H]; [|apply IH; exact H].
+  apply M. apply andb_true_iff in H. destruct H as [Hraw Hr].
+  destruct r as [x|]; [|discriminate].
+  assert (RAW : forall c, step (Some f) op s = sink_call (Some f) c s -> sfired s1 = true).
+  { intros c Ec. rewrite Ec in Es. pose proof (sink_call_spec f c s) as Sp. unfold raw_spec in Sp.
+    rewrite Es in Sp. cbn [fst snd] in Sp. destruct Sp as (_ & _ & [[Hn _]|[_ Hf]]); [discriminate|exact Hf]. }
+  destruct op; try discriminate; eapply RAW; reflexivity.
+Qed.
+
+(* the sink was healthy when Close was called and fails at a call Close makes:
+   Close returns the sink's error *)
+Lemma close_reports_own_calls_lemma : forall f before body owns,
+    let s := snd (run_ops (Some f) before w0) in
+    sfired s = false ->
+    sfired (snd (run_close (Some f) (close_ops body owns) s)) = true ->
+    fst (run_close (Some f) (close_ops body owns) s) = Some (fid f).
+Proof.
+  intros f before body owns s Hs Hf.
+  destruct (close_reports_lemma f before body owns Hf) as [H|H]; [|exact H].
+  apply raw_reported_fired in H. unfold s in Hs. congruence.
+Qed.
+
 Lemma run_ops_app f : forall a b s,
     run_ops f (a ++ b) s =
     let (r1, s1) := run_ops f a s in
@@ -295,29 +425,66 @@ Qed.
 (* the statement the correspondence run evaluates: for a program that ends with
    the Flush of Close, every fault index reached by the fault-free run comes
    back from a raw call or from that Flush *)
-Lemma sink_in_range_surfaces_lemma : forall ops fmd k,
-    (1 <= k <= scalls (snd (run_ops None (ops ++ [FinalFlush]) w0)))%nat ->
-    surfaces_at (ops ++ [FinalFlush]) fmd k = true.
+Lemma flush_reported_app e : forall a ra b rb,
+    length ra = length a ->
+    flush_reported e (a ++ b) (ra ++ rb) = flush_reported e a ra || flush_reported e b rb.
 Proof.
-  intros ops fmd k [Hk1 Hk2]. unfold surfaces_at.
-  set (f := mkFault k fmd inj_id).
+  induction a as [|op a IH]; intros ra b rb Hl; destruct ra as [|r ra]; try discriminate; cbn [app flush_reported].
+  - reflexivity.
+  - rewrite IH by (cbn in Hl; congruence). rewrite orb_assoc. reflexivity.
+Qed.
+
+(* the statement the correspondence run evaluates: for a program that ends with
+   the Flush of Close - and the Close of the sink if the Writer owns it - every
+   fault index reached by the fault-free run comes back from a raw call or from
+   a Flush whose result the Writer returns *)
+Lemma sink_in_range_surfaces_lemma : forall ops (owns : bool) fmd k,
+    (1 <= k <= scalls (snd (run_ops None (ops ++ close_ops [] owns) w0)))%nat ->
+    surfaces_at (ops ++ close_ops [] owns) fmd k = true.
+Proof.
+  intros ops owns fmd k [Hk1 Hk2]. unfold surfaces_at.
+  set (f := plain_fault k fmd inj_id).
   pose proof (sink_surfaces_lemma f ops FinalFlush eq_refl) as SS.
-  pose proof (run_nofire f (ops ++ [FinalFlush]) w0) as NF.
+  pose proof (run_nofire f (ops ++ close_ops [] owns) w0) as NF.
   pose proof (run_ops_length (Some f) ops w0) as Len.
   assert (Efk : fk f = k) by reflexivity. assert (Efid : fid f = inj_id) by reflexivity.
-  clearbody f.
-  rewrite run_ops_app in *. cbn [run_ops] in *. rewrite Efk in NF.
+  clearbody f. rewrite Efk in NF.
+  assert (FIRED : sfired (snd (run_ops (Some f) (ops ++ close_ops [] owns) w0)) = true).
+  { destruct (sfired (snd (run_ops (Some f) (ops ++ close_ops [] owns) w0))) eqn:F; [reflexivity|].
+    exfalso. destruct (NF eq_refl) as [H1 H2].
+    assert (Hlt : (scalls (snd (run_ops (Some f) (ops ++ close_ops [] owns) w0)) < k)%nat)
+      by (apply H2; unfold w0; cbn; lia).
+    rewrite H1 in Hlt. lia. }
+  clear NF Hk2. unfold close_ops in *. cbn [app] in *.
+  rewrite run_ops_app in *. cbn [run_ops] in *.
   destruct (run_ops (Some f) ops w0) as [rs s]. cbn [fst] in Len.
-  destruct (step (Some f) FinalFlush s) as [r s'] eqn:Es. cbn [snd] in *.
+  destruct (step (Some f) FinalFlush s) as [r s'] eqn:Es.
   destruct (sfired s') eqn:F.
-  - destruct (SS eq_refl) as [H|H].
-    + rewrite raw_reported_app by exact Len. rewrite Efid in H. rewrite H. reflexivity.
-    + rewrite last_last. rewrite H, Efid. rewrite N.eqb_refl. apply orb_true_r.
-  - exfalso. destruct (NF eq_refl) as [H1 H2].
-    assert (Hlt : (scalls s' < k)%nat) by (apply H2; unfold w0; cbn; lia).
-    clear H2. rewrite run_ops_app in H1. cbn [run_ops] in H1.
-    destruct (run_ops None ops w0) as [rs0 s0]. destruct (step None FinalFlush s0) as [r0 s0'].
-    inversion H1; subst. cbn [snd] in Hk2. lia.
+  - (* surfaced by the Flush or before *)
+    assert (PRE : raw_reported inj_id ops rs || flush_reported inj_id [FinalFlush] [r] = true).
+    { destruct (SS eq_refl) as [H|H].
+      - rewrite Efid in H. rewrite H. reflexivity.
+      - rewrite H, Efid. cbn [flush_reported is_returned_flush andb]. rewrite N.eqb_refl. apply orb_true_r. }
+    destruct owns; cbn [run_ops] in *.
+    + destruct (step (Some f) SinkClose s') as [r2 s2].
+      change (r :: [r2]) with ([r] ++ [r2]). change (FinalFlush :: [SinkClose]) with ([FinalFlush] ++ [SinkClose]).
+      rewrite !app_assoc.
+      rewrite raw_reported_app by (rewrite !app_length; cbn; lia).
+      rewrite flush_reported_app by (rewrite !app_length; cbn; lia).
+      rewrite raw_reported_app by exact Len. rewrite flush_reported_app by exact Len.
+      apply orb_true_iff in PRE. destruct PRE as [P|P]; rewrite P; repeat rewrite ?orb_true_r, ?orb_true_l; reflexivity.
+    + rewrite raw_reported_app by exact Len. rewrite flush_reported_app by exact Len.
+      apply orb_true_iff in PRE. destruct PRE as [P|P]; rewrite P; repeat rewrite ?orb_true_r, ?orb_true_l; reflexivity.
+  - (* not yet fired after the Flush: the failing call is the Close of the sink *)
+    destruct owns; cbn [run_ops snd] in *; [|congruence].
+    cbn [step] in *.
+    pose proof (sink_call_spec f CClose s') as Sp. unfold raw_spec in Sp.
+    destruct (sink_call (Some f) CClose s') as [r2 s2]. cbn [fst snd] in *.
+    destruct Sp as (_ & _ & [[_ Hs]|[Hr _]]); [congruence|]. subst r2.
+    change (r :: [Some (fid f)]) with ([r] ++ [Some (fid f)]). change (FinalFlush :: [SinkClose]) with ([FinalFlush] ++ [SinkClose]).
+    rewrite !app_assoc.
+    rewrite raw_reported_app by (rewrite !app_length; cbn; lia).
+    cbn [raw_reported is_raw andb]. rewrite Efid, N.eqb_refl. cbn [orb]. rewrite orb_true_r. reflexivity.
 Qed.
 
 (* the hypotheses are satisfiable: a program with a placeholder, 11 sink calls *)
